@@ -54,6 +54,7 @@ class Directive:
         self.line = line
         self.text_lines = []   # (unit_line, text)
         self.with_lines = None
+        self.with_tmpl = None
 
     def text(self):
         return '\n'.join(t for (_, t) in self.text_lines)
@@ -61,7 +62,26 @@ class Directive:
     def first_text_line(self):
         return self.text_lines[0][0] if self.text_lines else self.line
 
-    def with_text(self):
+    def with_text(self, templates=None):
+        if self.with_tmpl:
+            if not templates or self.with_tmpl not in templates:
+                raise Maintenance('unknown template %s (unit line %d)' % (self.with_tmpl, self.line))
+            args = {}
+            key = None
+            for (_, t) in (self.with_lines or []):
+                m = re.match(r'\s*([A-Z][A-Z0-9_]*)\s*=\s?(.*)$', t)
+                if m:
+                    key = m.group(1)
+                    args[key] = m.group(2)
+                elif key:
+                    args[key] += '\n' + t
+            text = templates[self.with_tmpl]
+            for k, v in args.items():
+                text = text.replace('#' + k + '#', v)
+            m = re.search(r'#([A-Z][A-Z0-9_]*)#', text)
+            if m:
+                raise Maintenance('template %s: parameter %s not given (unit line %d)' % (self.with_tmpl, m.group(1), self.line))
+            return text
         return '\n'.join(t for (_, t) in (self.with_lines or []))
 
 
@@ -79,6 +99,7 @@ class Unit:
         self.name = os.path.splitext(os.path.basename(path))[0]
         self.header = {'properties': [], 'assume': [], 'trusted': [], 'note': []}
         self.parts = []   # ('raw', line_no, text) | ('block', Block) | ('const', line, file, names)
+        self.templates = {}
         self._parse()
 
     def _parse(self):
@@ -86,8 +107,19 @@ class Unit:
         cur = None
         curdir = None
         in_with = False
+        tmpl = None
         for ln, text in enumerate(lines, 1):
             s = text.strip()
+            if tmpl is not None:
+                if s.startswith('//@endtemplate'):
+                    tmpl = None
+                else:
+                    self.templates[tmpl] += text + '\n'
+                continue
+            if s.startswith('//@template'):
+                tmpl = s.split()[1]
+                self.templates[tmpl] = ''
+                continue
             if s.startswith('//!'):
                 m = re.match(r'//!\s*(\w+)\s*:\s*(.*)$', s)
                 if m:
@@ -121,10 +153,12 @@ class Unit:
                     cur = None
                     curdir = None
                     continue
-                if kw == 'with':
+                if kw in ('with', 'with_template'):
                     if curdir is None or curdir.kind not in ('rw', 'mutant'):
                         raise Maintenance('%s:%d: //@with without //@rw' % (self.path, ln))
                     curdir.with_lines = []
+                    if kw == 'with_template':
+                        curdir.with_tmpl = arg.split()[0]
                     in_with = True
                     continue
                 curdir = Directive(kw, arg, ln)
@@ -222,12 +256,15 @@ class Unit:
                 args = d.arg.split()
                 count = '1'
                 name = 'R8'
+                nth = None
                 for a in args:
                     if a in ('*', '?') or a.isdigit():
                         count = a
+                    elif a.startswith('nth='):
+                        nth = int(a[4:])
                     else:
                         name = a
-                item = X.rewrite(item, d.text(), d.with_text(), count, d.line, log, name)
+                item = X.rewrite(item, d.text(), d.with_text(self.templates), count, d.line, log, name, nth=nth)
         kind = blk.path.split(' :: ')[-1].split()[0]
         contracted = False
         if kind == 'fn':
